@@ -44,6 +44,7 @@ def judge(fam, ops):
     if mrc != 0:
         return {"kind": "driver", "at": len(ml), "detail": "model driver failed rc=%s %s" % (mrc, merr[-300:])}
     n = min(len(cl), len(ml))
+    first_model = None
     for i in range(n):
         mm, sp = split_model_line(ml[i])
         op = ops[i] if i < len(ops) else ""
@@ -57,8 +58,10 @@ def judge(fam, ops):
             return {"kind": "spec", "at": i, "detail": "op %r: implementation %r, spec %r (model %r)" % (op, c, spec_line, mm)}
         if sp is not None:
             return {"kind": "thm", "at": i, "detail": "op %r: model %r differs from spec %r; implementation %r" % (op, mm, sp, c)}
-        if c != mm:
-            return {"kind": "model", "at": i, "detail": "op %r: implementation %r, model %r (spec view equal)" % (op, c, mm)}
+        if c != mm and first_model is None:
+            # correspondence differs here; keep scanning: the spec column is a function of the op history alone,
+            # so a later line can still show the property itself failing on this input
+            first_model = {"kind": "model", "at": i, "detail": "op %r: implementation %r, model %r (spec view equal)" % (op, c, mm)}
     if is_crash(crc) or crc == -999:
         nxt = ml[len(cl)] if len(cl) < len(ml) else ""
         if nxt == "ub" or nxt.startswith("fault"):
@@ -71,8 +74,8 @@ def judge(fam, ops):
     if len(cl) != len(ml):
         if len(ml) < len(cl) and ml and (ml[-1] == "ub" or ml[-1].startswith("fault")):
             return {"kind": "spec", "at": len(ml) - 1, "detail": "model predicts %s, implementation went on" % ml[-1]}
-        return {"kind": "model", "at": n, "detail": "answer counts differ: implementation %d, model %d" % (len(cl), len(ml))}
-    return None
+        return first_model or {"kind": "model", "at": n, "detail": "answer counts differ: implementation %d, model %d" % (len(cl), len(ml))}
+    return first_model
 
 
 def shrink(fam, ops, kind, budget=150, wall_s=60.0):
